@@ -225,3 +225,19 @@ def run(ctx, facts):
                 ctx.ok("RESET-prefix", fid, "fields mutated by sketching %s are all killed before use in hash_set" % sorted(mutated), hirq.loc(fn))
     ctx.floor("C13 constructor/reset pairs", pairs, 10 if facts.has(SMH2["prefix"] + "new") else 9)
     ctx.floor("C13 field instances", total, 30)
+
+
+def require_verified_reset(ctx, facts, specs, rule):
+    """RESETBEFORE-style rules rely on `x.reset()` really re-establishing the constructor state: check the named
+    (constructor, reset) pairs and report failures under `rule`"""
+    analyzers, verified = {}, {}
+    sub = type(ctx)(ctx.prop, ctx.tier)
+    sub.configs = list(ctx.configs)
+    for spec in specs:
+        if facts.has(spec["prefix"] + spec["ctor"]):
+            check_struct(sub, facts, spec, analyzers, verified)
+    for v in sub.violations:
+        ctx.violation(rule, v["fn"], "reset is not a full reset: " + v["instance"], v["where"], v["message"])
+    if not sub.violations:
+        ctx.ok(rule, ", ".join(s_["name"] for s_ in specs), "(constructor, reset) pair(s) verified: reset re-establishes every live mutated field with the constructor's value", "")
+    return not sub.violations
